@@ -453,6 +453,35 @@ func (x *c16x) helper(bt, name, kind string) string {
 		}
 		return "", false
 	}
+	// a NAMED result (`(err error)`): assignments to it do not return; `return err` / bare `return` return its value
+	named := ""
+	if ns := fd.Type.Results.List[0].Names; len(ns) == 1 {
+		named = ns[0].Name
+	}
+	assignsNamed := func(n ast.Node) bool {
+		found := false
+		if named == "" {
+			return false
+		}
+		ast.Inspect(n, func(m ast.Node) bool {
+			if as, ok := m.(*ast.AssignStmt); ok && as.Tok == token.ASSIGN {
+				for _, l := range as.Lhs {
+					if id, ok := l.(*ast.Ident); ok && id.Name == named {
+						found = true
+					}
+				}
+			}
+			return true
+		})
+		return found
+	}
+	reqPath := func(e ast.Expr) string {
+		src := x.c.src(e)
+		if fc.req != "" && strings.HasPrefix(src, fc.req+".") {
+			return strings.TrimPrefix(src, fc.req+".")
+		}
+		return ""
+	}
 	var stmts []string
 	for _, s := range fd.Body.List {
 		switch t := s.(type) {
@@ -464,8 +493,54 @@ func (x *c16x) helper(bt, name, kind string) string {
 						continue
 					}
 				}
+				// if c { err = <value> }   — sets the named result and FALLS THROUGH
+				if as, ok := t.Body.List[0].(*ast.AssignStmt); ok && named != "" && as.Tok == token.ASSIGN && len(as.Lhs) == 1 && len(as.Rhs) == 1 {
+					if id, ok := as.Lhs[0].(*ast.Ident); ok && id.Name == named {
+						if v, ok := val(as.Rhs[0]); ok {
+							stmts = append(stmts, ".setIf "+par(x.bexpr(fc, t.Cond))+" "+v)
+							continue
+						}
+					}
+				}
+			}
+		case *ast.RangeStmt:
+			if path := reqPath(t.X); path != "" {
+				x.atoms["list:"+path] = true
+				if !assignsNamed(t.Body) {
+					// a loop that can only return errors
+					okLoop := true
+					ast.Inspect(t.Body, func(m ast.Node) bool {
+						if r, ok := m.(*ast.ReturnStmt); ok {
+							if len(r.Results) != 1 {
+								okLoop = false
+							} else if v, ok := val(r.Results[0]); !ok || v != "true" {
+								okLoop = false
+							}
+						}
+						return true
+					})
+					if okLoop {
+						stmts = append(stmts, ".checkLoop "+leanStr(path))
+						continue
+					}
+				} else if len(t.Body.List) == 1 {
+					// for … { if err = f(x); err != nil { return <error> } }
+					if ifs, ok := t.Body.List[0].(*ast.IfStmt); ok && ifs.Else == nil && x.c.src(ifs.Cond) == named+" != nil" && len(ifs.Body.List) == 1 {
+						as, ok1 := ifs.Init.(*ast.AssignStmt)
+						r, ok2 := ifs.Body.List[0].(*ast.ReturnStmt)
+						if ok1 && ok2 && as.Tok == token.ASSIGN && len(as.Lhs) == 1 && x.c.src(as.Lhs[0]) == named && len(r.Results) == 1 &&
+							(isErrCtor(r.Results[0]) || x.c.src(r.Results[0]) == named) {
+							stmts = append(stmts, ".clobberLoop "+leanStr(path))
+							continue
+						}
+					}
+				}
 			}
 		case *ast.ReturnStmt:
+			if named != "" && (len(t.Results) == 0 || (len(t.Results) == 1 && x.c.src(t.Results[0]) == named)) {
+				stmts = append(stmts, ".retVar")
+				continue
+			}
 			if len(t.Results) == 1 {
 				if v, ok := val(t.Results[0]); ok {
 					stmts = append(stmts, ".ret "+v)
@@ -476,6 +551,11 @@ func (x *c16x) helper(bt, name, kind string) string {
 					continue
 				}
 			}
+		}
+		if assignsNamed(s) {
+			x.otherID++
+			stmts = append(stmts, fmt.Sprintf(".clobber %d %s", x.otherID, leanStr(oneLine(x.c.src(s), 80))))
+			continue
 		}
 		stmts = append(stmts, ".other "+leanStr(oneLine(x.c.src(s), 80)))
 	}
